@@ -18,6 +18,7 @@ from .paths import enumerate_paths
 SYMMETRIC = {"eigh", "eigsh", "eigvalsh"}
 GENERAL = {"eig", "eigs"}
 ITERATIVE = {"eigsh", "eigs"}
+SVD = {"svd"}     # u, s, vh = svd(X): columns of u are eigenvectors of X X^T, already DESCENDING by singular value
 
 
 @dataclass(frozen=True)
@@ -175,7 +176,7 @@ class EigenWalk:
         if isinstance(e, ast.Call):
             nm = dotted(e.func) or ""
             base = nm.split(".")[-1]
-            if base in SYMMETRIC | GENERAL and ("linalg" in nm or nm == base):
+            if base in SYMMETRIC | GENERAL | SVD and ("linalg" in nm or nm == base):
                 return base, e
         return None
 
@@ -204,6 +205,26 @@ class EigenWalk:
                         if k.arg == "sigma":
                             note = "shift-invert (sigma=) selects eigenvalues near sigma, not the largest"
                     kreq = solver in ITERATIVE and (len(call.args) > 1 or kwarg(call, "k") is not None)
+                    if solver in SVD:
+                        fm = kwarg(call, "full_matrices")
+                        if fm is None and len(call.args) > 1:
+                            fm = call.args[1]
+                        economy = fm is not None and const(fm) is False
+                        if fm is not None and const(fm) not in (True, False):
+                            note = "full_matrices is not a constant"
+                        elif economy:
+                            note = ("economy SVD (full_matrices=False) has only min(rows, columns) left singular vectors: fewer than requested "
+                                    "when the unfolding has fewer columns than the requested count")
+                        cu = kwarg(call, "compute_uv")
+                        if isinstance(tgt, ast.Tuple) and len(tgt.elts) == 3 and (cu is None or const(cu) is True):
+                            a, b, c = tgt.elts
+                            if isinstance(a, ast.Name):
+                                env[a.id] = Vecs(cid, solver, col_order="desc", note=note)
+                            if isinstance(b, ast.Name):
+                                env[b.id] = Vals(cid, solver, permuted_desc=True)
+                            if isinstance(c, ast.Name):
+                                env[c.id] = Vecs(cid, solver, col_order="desc", transposed=True, note=note)
+                        continue
                     if isinstance(tgt, ast.Tuple) and len(tgt.elts) == 2:
                         a, b = tgt.elts
                         if isinstance(a, ast.Name):
